@@ -126,6 +126,8 @@ def ceremony_job(job):
             extra = [{'address': slots[1]['addr'], 'script': '', 'confirmations': 10, 'output_n': idx, 'txid': txid, 'value': val}
                      for txid, idx, val in ((f1, 1, 70000000), (f1, 2, 71000000), (f1, 255, 72000000), (f2, 256, 73000000),
                                             (f2, 65536, 74000000), (f2, 0, 75000000))]
+            if len(slots) > 2:            # the second address of the group: one more output of the first funding transaction
+                extra.append({'address': slots[2]['addr'], 'script': '', 'confirmations': 10, 'output_n': 3, 'txid': f1, 'value': 76000000})
             for wi in online:
                 ws[wi].utxos_update(utxos=[dict(x) for x in extra], rescan_all=False)
         for s in slots:
@@ -144,17 +146,21 @@ def ceremony_job(job):
     tmpf = os.path.join(os.environ['BCL_DATA_DIR'], 'handoff_%s.tx' % tag)
     for cer in ceremonies:
         slot = slots[cer['slot'] % len(slots)]
+        # the outputs being spent: (slot, index) pairs - one to three inputs, of one or of two addresses of the group
         idx = []
-        for i in cer.get('points') or [cer.get('point', 0)]:
-            if i % len(slot['points']) not in idx:
-                idx.append(i % len(slot['points']))
+        for q in cer.get('points') or [cer.get('point', 0)]:
+            sl, i = (cer['slot'] % len(slots), q) if isinstance(q, int) else (q[0] % len(slots), q[1])
+            if (sl, i % len(slots[sl]['points'])) not in idx:
+                idx.append((sl, i % len(slots[sl]['points'])))
         if cer.get('chain') and slot.get('chainpt') is not None:          # spend the change output of an earlier ceremony
-            idx = [slot['chainpt']] + [i for i in idx[1:] if i != slot['chainpt']]
-        pts = [slot['points'][i] for i in idx]
+            cp = (cer['slot'] % len(slots), slot['chainpt'])
+            idx = [cp] + [x for x in idx[1:] if x != cp]
+        pts = [slots[sl]['points'][i] + (sl,) for sl, i in idx]
         value = sum(p[2] for p in pts)
         change = cer.get('change', 0)
         outs = [(dest, value - FEE - change)] + ([(slot['addr'], change)] if change else [])
-        funds = list(slot['points'])
+        used = sorted({sl for sl, _ in idx} | {cer['slot'] % len(slots)})
+        funds = [pt + (sl,) for sl in used for pt in slots[sl]['points']]
         copies, waspushed, txs, evs, pushed_t = {}, {}, [], [], None
         for a in cer['events']:
             op, w, v, form = a['op'], a['w'] - 1, a['v'] - 1, a['form']
@@ -166,11 +172,21 @@ def ceremony_job(job):
             err = ''
             try:
                 if op == 'propose':
-                    copies[w] = ws[w].transaction_create(outs, [(p[0], p[1], slot['key_ids'][w], p[2]) for p in pts], fee=FEE,
+                    copies[w] = ws[w].transaction_create(outs, [(p[0], p[1], slots[p[3]]['key_ids'][w], p[2]) for p in pts], fee=FEE,
                                                          locktime=a.get('lt', 0), replace_by_fee=a.get('rbf', False),
                                                          random_output_order=False)
                 elif op == 'sign':
                     copies[w].sign()
+                elif op == 'sign_in':                 # the wallet's own key on some inputs only, then the verdict is asked for
+                    from bitcoinlib.transactions import Transaction
+                    for i in a['ins']:
+                        Transaction.sign(copies[w], None, index_n=i - 1)
+                    copies[w].verify()
+                elif op == 'sign_key':                # sign() with the child private key of cosigner a['key'] for some inputs
+                    from bitcoinlib.keys import HDKey
+                    k, c = ms[a['key'] - 1]
+                    master = HDKey(key=k.to_bytes(32, 'big'), chain=c, network=NET, witness_type=wt, multisig=True)
+                    copies[w].sign(keys=[master.subkey_for_path(copies[w].inputs[i - 1].key_path) for i in a['ins']])
                 elif op == 'send':
                     copies[w].send()
                 elif op == 'verify':
@@ -193,13 +209,12 @@ def ceremony_job(job):
                     err = 'unknown op'
             except Exception as e:
                 err = repr(e)[:200]
-            ob = {'a': a, 'ok': err == '', 'nsig': -1, 'verified': False, 'verify': False, 'pushed': False, 'err': False,
+            ob = {'a': a, 'ok': err == '', 'nsig': [], 'verified': False, 'verify': False, 'pushed': False, 'err': False,
                   'rs': [], 'tx': 0, 'exc': err}
             t = copies.get(tgt)
             if t is not None and (not err or op == 'send'):       # what the object says after a failed send is observed too
                 try:
-                    ns = {len(i.signatures) for i in t.inputs}
-                    ob['nsig'] = ns.pop() if len(ns) == 1 else -1
+                    ob['nsig'] = [len(i.signatures) for i in t.inputs]
                     ob['verified'] = bool(t.verified)
                     ob['pushed'] = bool(t.pushed) and not waspushed.get(id(t), False)
                     if ob['pushed'] and pushed_t is None:
@@ -209,7 +224,7 @@ def ceremony_job(job):
                     ob['shows'] = 'locktime %s sequence %s' % (t.locktime, ','.join('%x' % i.sequence for i in t.inputs))
                     ob['verify'] = bool(t.verify()) if op == 'verify' else ob['verified']
                     if op in ('propose', 'handoff', 'send_to'):
-                        ob['rs'] = list(t.inputs[0].redeemscript or b'')
+                        ob['rs'] = [list(i.redeemscript or b'') for i in t.inputs]
                         ob['inaddr'] = [i.address for i in t.inputs]
                     raw = t.raw().hex()
                     if raw not in txs:
@@ -251,8 +266,9 @@ def _oracle(needs):
 # generators
 # ---------------------------------------------------------------------------------------------
 
-def E(op, w, v=0, form=''):
-    return {'op': op, 'w': w, 'v': v, 'form': form}
+def E(op, w, v=0, form='', ins=(), key=0):
+    """One action: ins = input numbers (1-based) for sign_in / sign_key, key = cosigner key (1-based) for sign_key."""
+    return {'op': op, 'w': w, 'v': v, 'form': form, 'ins': list(ins), 'key': key}
 
 
 def gen_chain(rng, m, holders, order, forms, spice):
@@ -388,6 +404,40 @@ def legalize(events, knows, rng):
     return out
 
 
+def gen_uneven(rng, m, holders, knows, k, p, method):
+    """Uneven signing of a spend with k inputs: every input but number p reaches m signers; the spend must not verify, not
+    be broadcast and not become valid by being handed on, wherever p stands (first / middle / last); then input p is
+    completed.  method 'in': the last signer signs with index_n on the other inputs only; 'key': the proposer is handed the
+    child keys of other cosigners for the addresses of the other inputs only."""
+    W = len(holders)
+    byholder = {}
+    for w, h in enumerate(holders, 1):
+        if knows[w - 1] != 'none':
+            byholder.setdefault(h, []).append(w)
+    first = rng.choice([w for w in range(1, W + 1) if knows[w - 1] == 'utxo'])
+    rest = [i for i in range(1, k + 1) if i != p]
+    ev = [E('propose', first)]
+    if method == 'key' and m >= 2:
+        cos = rng.sample([h for h in range(1, max(holders) + 1) if h != holders[first - 1]] or [holders[first - 1]], m - 1)
+        for c in cos:
+            ev.append(E('sign_key', first, ins=rest, key=c))
+        last, fix = first, [E('sign_key', first, ins=[p], key=c) for c in cos]
+    else:
+        others = [h for h in sorted(byholder) if h != holders[first - 1]]
+        order = [first] + [rng.choice(byholder[h]) for h in rng.sample(others, m - 1)]
+        for j, w in enumerate(order):
+            if j > 0:
+                ev.append(E('handoff', order[j - 1], w, rng.choice(['object', 'file', 'object', 'dict'])))
+            ev.append(E('sign', w) if j < len(order) - 1 else E('sign_in', w, ins=rest))
+        last, fix = order[-1], [E('sign_in', order[-1], ins=[p])]
+    ev += [E('verify', last), E('send', last)]
+    other = rng.choice([w for w in range(1, W + 1) if w != last] or [last])
+    if other != last:
+        ev += [E('handoff', last, other, rng.choice(FORMS)), E('verify', other), E('send', other)]
+    ev += fix + [E('verify', last), E('send', last)]
+    return ev
+
+
 def gen_ceremonies(rng, m, holders, budget):
     """Chains of m (and m + 1) distinct signer wallets: every signing order x every combination of hand-off forms while
     that is a small set, a seeded sample of it otherwise; the rest of the budget are random walks."""
@@ -511,12 +561,13 @@ def solve(recs):
 def describe(events):
     def one(e):
         a = e['a']
-        s = '%s(%d%s%s)' % (a['op'], a['w'], ('->%d as %s' % (a['v'], a['form'])) if a['op'] == 'handoff' else '',
-                            (', locktime=%d, replace_by_fee=%s' % (a.get('lt', 0), a.get('rbf', False))) if a['op'] in ('propose', 'send_to') else '')
+        s = '%s(%d%s%s%s)' % (a['op'], a['w'], ('->%d as %s' % (a['v'], a['form'])) if a['op'] == 'handoff' else '',
+                              (', locktime=%d, replace_by_fee=%s' % (a.get('lt', 0), a.get('rbf', False))) if a['op'] in ('propose', 'send_to') else '',
+                              (', %sinputs %s' % (('key %d, ' % a['key']) if a.get('key') else '', a.get('ins'))) if a['op'] in ('sign_in', 'sign_key') else '')
         if a['op'] in ('propose', 'handoff', 'send_to') and e.get('shows'):
             s += '{%s}' % e['shows']
-        if e['nsig'] >= 0:
-            s += '=[%d sig%s%s%s]' % (e['nsig'], ' verified' if e['verified'] else '', ' PUSHED' if e['pushed'] else '',
+        if e['nsig']:
+            s += '=[%s sig%s%s%s]' % ('/'.join(str(x) for x in e['nsig']), ' verified' if e['verified'] else '', ' PUSHED' if e['pushed'] else '',
                                       ' error' if e['err'] else '')
         if not e['ok']:
             s += ' RAISED %s' % e.get('exc', '')[:160]
@@ -563,7 +614,7 @@ def run(replay=None):
         for k, (m, n, wt, srt, combos) in enumerate(agree_plan(rng, thorough)):
             ajobs.append((seed0 * 1000 + k, m, n, wt, srt, combos, str(k)))
         budget = 60 if thorough else 16
-        nslots = 2
+        nslots = 3
         for k, (m, n, holders, srt, wt) in enumerate(plan(rng, thorough)):
             W = len(holders)
             shared = list(range(n))
@@ -592,9 +643,21 @@ def run(replay=None):
             # funds the next ceremony
             cl = []
             for i, ev in enumerate(cers):
-                pts = [i % NPOINTS] + (rng.sample(range(NPOINTS), rng.choice([1, 2])) if rng.random() < 0.25 else [])
+                pts = [[1, i % NPOINTS]] + ([[rng.choice([1, 2]), rng.randrange(3)] for _ in range(rng.choice([1, 2]))]
+                                            if rng.random() < 0.25 else [])
                 cl.append({'slot': 1, 'points': pts, 'events': ev})
-            for pos in sorted(rng.sample(range(len(cl)), min(2, len(cl))), reverse=True):
+            # uneven signing of spends with two or three inputs drawn from two addresses of the group: the incomplete input
+            # first, in the middle, last; with index_n and with child keys of one address
+            for u in range(4 if not thorough else 9):
+                kk = 2 + (u + k) % 2
+                pos = [1, kk, 2, 1][(u + k) % 4] if kk == 3 else 1 + (u + k // 2) % 2
+                ev = legalize(gen_uneven(rng, m, holders, knows, kk, min(pos, kk), 'key' if (u + k) % 3 == 0 else 'in'), knows, rng)
+                # the incomplete input is the only one of its address (a child key signs every input of its address)
+                pp = min(pos, kk)
+                i1, i2 = rng.sample(range(NPOINTS), kk), rng.randrange(3)
+                cl.append({'slot': 1, 'points': [[2, i2] if j + 1 == pp else [1, i1[j]] for j in range(kk)], 'events': ev, 'uneven': True})
+            plain = [i for i, c in enumerate(cl) if not c.get('uneven')]
+            for pos in sorted(rng.sample(plain, min(2, len(plain))), reverse=True):
                 cl[pos]['chain'] = True
                 cl.insert(pos, {'slot': 1, 'points': [rng.randrange(NPOINTS)], 'change': 20000000,
                                 'events': gen_complete(rng, m, holders, knows)})
@@ -665,14 +728,17 @@ def run(replay=None):
                 meta.append(('a', (m, n, wt, srt, 'slot'), obs))
             for cer, got in zip(cl, res['ceremonies']):
                 slot = res['slots'][got['slot']]
-                pubs = [c10_ref.derive_pub(ms[i], slot['path']) for i in range(n)]
+                used = sorted({f[3] for f in got['funds']})                 # the addresses (slots) the spend may draw on
+                groups = [[list(c10_ref.derive_pub(ms[i], res['slots'][sl]['path'])) for i in range(n)] for sl in used]
                 recs.append({'kind': 'ceremony', 'm': m, 'wt': wt, 'net': NET, 'sorted': srt, 'listing': [x + 1 for x in wallets[0][0]],
-                             'pubs': [list(p) for p in pubs], 'holder': [h + 1 for _, h in wallets],
+                             'pubs': groups[0], 'groups': groups, 'holder': [h + 1 for _, h in wallets],
                              'afs': [bool(st['afs']) for st in settings], 'height': [1, 0, 0, 0],    # bitcoinlib_test: block count 1
                              'knows': [st.get('knows', 'utxo') for st in settings],
                              'funds': [{'txid': list(bytes.fromhex(f[0])[::-1]), 'vout': list(f[1].to_bytes(4, 'little')),
-                                        'amount': list(f[2].to_bytes(8, 'little'))} for f in got['funds']],
-                             'events': [{k: e[k] for k in ('a', 'ok', 'nsig', 'verified', 'verify', 'pushed', 'err', 'rs', 'tx')} for e in got['events']],
+                                        'amount': list(f[2].to_bytes(8, 'little')), 'g': used.index(f[3]) + 1} for f in got['funds']],
+                             'events': [dict({k: e[k] for k in ('ok', 'nsig', 'verified', 'verify', 'pushed', 'err', 'rs', 'tx')},
+                                             a={k: e['a'].get(k, d) for k, d in (('op', ''), ('w', 0), ('v', 0), ('form', ''), ('ins', []), ('key', 0))})
+                                        for e in got['events']],
                              'txs': [list(bytes.fromhex(x)) for x in got['txs']]})
                 meta.append(('c', job, got, dict(base, ceremony=cer), slot))
     verdicts, rounds = solve(recs)
@@ -709,7 +775,7 @@ def run(replay=None):
             nraw += len(got['txs'])
             nvalid += sum(1 for c in v.get('cons', []) if c == 'valid')
             for e in got['events']:
-                ck.case(('cer', m, n, wt, e['a']['op'], e['a']['form'], e['nsig'], e['verified'], e['pushed'],
+                ck.case(('cer', m, n, wt, e['a']['op'], e['a']['form'], tuple(e['nsig']), e['verified'], e['pushed'],
                          settings[(e['a']['v'] or e['a']['w']) - 1]['afs'], settings[(e['a']['v'] or e['a']['w']) - 1].get('knows'), e['ok'], e['a'].get('lt', -1) > 0, e['a'].get('rbf', False)))
             text = '%d-of-%d %s wallets(listing, holder, anti_fee_sniping, knows)=%s spending %s: %s' % (
                 m, n, wt, [(list(p), h, st['afs'], st.get('knows', 'utxo')) for (p, h), st in zip(wallets, settings)], slot['addr'],
